@@ -4,7 +4,7 @@ against the abstract machine (TraceCore)."""
 import json, os, time
 from common import *
 
-LEVEL = {"C06": "model_checking", "C07": "model_checking", "C08": "model_checking", "C09": "model_checking",
+LEVEL = {"C17": "fault_enumeration", "C06": "model_checking", "C07": "model_checking", "C08": "model_checking", "C09": "model_checking",
          "C13": "model_checking", "C01": "model_checking", "C02": "model_checking", "C12": "model_checking",
          "C16": "model_checking"}
 
@@ -27,6 +27,14 @@ def generate(focus, tier, wd, gen_spec="GenCore.tla", consts=""):
     cases = printed(out, "REPLAY")
     events = printed(out, "EVENTS")
     ext = printed(out, "EXTCASES")
+    rosets = printed(out, "ROSETS")
+    if rosets:
+        cases = [dict(c, ro=ro) for c in cases for ro in rosets[0]]
+    faults = printed(out, "FAULTS")
+    if faults:
+        with open(os.path.join(wd, "faults.ndjson"), "w") as f:
+            for sch in faults[0]:
+                f.write(json.dumps(sorted(sch)) + "\n")
     if ext:
         cases = [dict(c, ext=x["ext"], extname=x["extname"], events=x["events"]) for c in cases for x in ext[0]]
     st, tr = tlc_stats(out)
@@ -143,7 +151,8 @@ def check(prop, tier, seed, focus=None, props_of_interest=None):
         sampled = True
     log(f"[{prop}] generated {total_generated} programs, replaying {len(cases)} x {len(events) if events else 'own'} events ({time.time()-t0:.0f}s)")
     shards = max(1, min(NCPU, len(cases) // 8))
-    traces = replay(cases, events, wd, shards)
+    fpath = os.path.join(wd, "faults.ndjson")
+    traces = replay(cases, events, wd, shards, extra=(["--faults", fpath] if os.path.exists(fpath) else None))
     log(f"[{prop}] replayed ({time.time()-t0:.0f}s)")
     agg = aggregate(validate(traces, wd))
     log(f"[{prop}] validated ({time.time()-t0:.0f}s)")
